@@ -322,6 +322,18 @@ Proof.
 Qed.
 
 
+Lemma scan_bitmap_good : forall fuel s bs, PInv s -> (length (buf s) - start s < fuel)%nat ->
+  good (fun rs => PInv (snd rs)) (scan_bitmap fuel s bs).
+Proof.
+  induction fuel as [|f IH]; intros s bs HP Hf; [lia|].
+  cbn [scan_bitmap]. destruct (is_token (scat s)); [|exact HP].
+  eapply good_bind; [apply (scan_ascii_str_good2
+     (fun str => match rtype_from_str str with Some t => Ok t | None => Err 35 end) s);
+     [intros l; cbn beta; destruct (rtype_from_str l); exact I|exact HP]|].
+  intros [r s1] _ (HP1 & HL). cbn [fst snd] in *. apply IH; [exact HP1|].
+  destruct HP1 as (HI1 & H11 & _). unfold Inv in HI1. lia.
+Qed.
+
 Lemma while_ascii_good : forall fuel s, PInv s -> (length (buf s) - start s < fuel)%nat ->
   good PInv (while_ascii fuel s).
 Proof.
@@ -1165,6 +1177,94 @@ Proof.
   - reflexivity.
 Qed.
 
+(* ---------------------------------------------------------- scan_svcb_octets *)
+
+Lemma finish_split_len s w : TEnd s w ->
+  good (fun rs => PInv (snd rs) /\ (length (rest (snd rs)) < length (buf s))%nat)
+       (do s1 <- next_item s; split_to s1 w).
+Proof.
+  intros HT. eapply good_bind; [apply next_item_after_token; exact HT|].
+  intros s1 _ (HI1 & Hw1 & Hf1 & Hb1).
+  pose proof (split_to_PInv s1 w HI1 Hw1 Hf1) as G.
+  destruct (split_to s1 w) as [[r s2]| | |] eqn:E; cbn [good snd] in *; auto. split; [exact G|].
+  unfold split_to in E. destruct (Nat.leb w (start s1)) eqn:L; [|discriminate E]. apply Nat.leb_le in L.
+  injection E as _ <-. unfold rest. cbn [buf start]. rewrite skipn_add.
+  replace (w + (start s1 - w))%nat with (start s1) by lia. rewrite skipn_length, <- Hb1.
+  unfold Inv in HI1. lia.
+Qed.
+
+Lemma scan_svcb_octets_good s : PInv s ->
+  good (fun rs => PInv (snd rs) /\ (length (rest (snd rs)) < length (rest s))%nat) (scan_svcb_octets s).
+Proof.
+  intros (HI & H1 & Hfr). unfold scan_svcb_octets.
+  destruct (require_token s) as [[]| | |] eqn:Erq; cbn [bind good]; auto;
+    try (unfold require_token in Erq; destruct (scat s); discriminate Erq).
+  assert (Htok : is_token (scat s) = true).
+  { unfold require_token in Erq. destruct (scat s); try discriminate Erq; reflexivity. }
+  pose proof (trim_to_spec s (start s) HI) as T. rewrite Nat.leb_refl in T.
+  destruct T as (s0 & E0 & HI0 & Hst0 & Hr0 & Hc0 & _). rewrite E0. cbn [bind].
+  rewrite Nat.sub_diag in Hst0.
+  assert (HL0 : length (buf s0) = length (rest s)).
+  { rewrite <- Hr0. unfold rest. rewrite Hst0. reflexivity. }
+  assert (Hfu : (length (rest s0) < fuel_of s0)%nat).
+  { rewrite (rest_length s0 HI0). unfold fuel_of. lia. }
+  destruct (ascii_loop_total (fuel_of s0) s0 0 HI0 Hfu) as (s1 & c & E1 & HI1 & Hs1 & Hb1 & Hc1).
+  rewrite E1. cbn [bind fst].
+  assert (Slow : good (fun rs : list N * sbuf => PInv (snd rs) /\ (length (rest (snd rs)) < length (rest s))%nat)
+     (do sw <- write_loop into_octet (fuel_of s1) s1 (start s1);
+      do s2 <- next_item (fst sw);
+      if negb (hsp s2) && (match scat s2 with CQuo => true | _ => false end)
+      then do sw2 <- write_loop into_octet (fuel_of s2) s2 (snd sw);
+           do s3 <- next_item (fst sw2); split_to s3 (snd sw2)
+      else split_to s2 (snd sw)) \/ is_token (scat s1) = false).
+  { destruct (is_token (scat s1)) eqn:Ht1; [left|right; reflexivity].
+    assert (Hfu1 : (length (rest s1) < fuel_of s1)%nat).
+    { rewrite (rest_length s1 HI1). unfold fuel_of. lia. }
+    eapply good_bind; [apply (write_loop_end into_octet (fuel_of s1) s1 (start s1) HI1 (le_n _) Ht1 Hfu1)|].
+    intros [s2 w] _ (HT & _ & _ & HL2 & _). cbn [fst snd] in *.
+    eapply good_bind; [apply next_item_after_token; exact HT|].
+    intros s3 _ (HI3 & Hw3 & Hf3 & Hb3).
+    assert (HL3 : length (buf s3) = length (rest s)) by (rewrite Hb3, HL2, Hb1; exact HL0).
+    assert (Direct : good (fun rs : list N * sbuf => PInv (snd rs) /\ (length (rest (snd rs)) < length (rest s))%nat)
+                          (split_to s3 w)).
+    { pose proof (split_to_PInv s3 w HI3 Hw3 Hf3) as G.
+      destruct (split_to s3 w) as [[r s4]| | |] eqn:E; cbn [good snd] in *; auto. split; [exact G|].
+      unfold split_to in E. destruct (Nat.leb w (start s3)) eqn:L; [|discriminate E]. apply Nat.leb_le in L.
+      injection E as _ <-. unfold rest at 1. cbn [buf start]. rewrite skipn_add.
+      replace (w + (start s3 - w))%nat with (start s3) by lia. rewrite skipn_length, HL3.
+      unfold Inv in HI3. lia. }
+    destruct (negb (hsp s3) && match scat s3 with CQuo => true | _ => false end) eqn:Eq; [|exact Direct].
+    assert (Ht3 : is_token (scat s3) = true).
+    { apply andb_true_iff in Eq as [_ Eq]. destruct (scat s3); try discriminate Eq; reflexivity. }
+    assert (Hfu3 : (length (rest s3) < fuel_of s3)%nat).
+    { rewrite (rest_length s3 HI3). unfold fuel_of. lia. }
+    eapply good_bind; [apply (write_loop_end into_octet (fuel_of s3) s3 w HI3 ltac:(lia) Ht3 Hfu3)|].
+    intros [s4 w4] _ (HT4 & _ & _ & HL4 & _). cbn [fst snd] in *.
+    pose proof (finish_split_len s4 w4 HT4) as G.
+    destruct (do s5 <- next_item s4; split_to s5 w4) as [[r s6]| | |]; cbn [good snd] in *; auto.
+    destruct G as [G1 G2]. split; [exact G1|]. rewrite HL4, HL3 in G2. exact G2. }
+  destruct (scat s1) eqn:Ec1.
+  - destruct Hc1 as [Hc1 | (Q0 & _ & Hlt)].
+    { rewrite Hc0 in Hc1. rewrite <- Hc1 in Htok. discriminate Htok. }
+    rewrite Q0. destruct (start s1) as [|k] eqn:Es1; [lia|]. cbn [bind].
+    pose proof (finish_split_len s1 k) as G.
+    assert (HT : TEnd s1 k) by (split; [exact HI1|]; split; [rewrite Ec1; reflexivity|left; lia]).
+    specialize (G HT). destruct (do s2 <- next_item s1; split_to s2 k) as [[r s3]| | |]; cbn [good snd] in *; auto.
+    destruct G as [G1 G2]. split; [exact G1|]. rewrite Hb1, HL0 in G2. exact G2.
+  - destruct Slow as [Sl | Sl]; [exact Sl|discriminate Sl].
+  - destruct Slow as [Sl | Sl]; [exact Sl|discriminate Sl].
+  - destruct Hc1 as [Hc1 | (_ & Q1 & _)]; [|congruence].
+    rewrite Hc0 in Hc1. rewrite <- Hc1 in Htok. discriminate Htok.
+Qed.
+
+Lemma while_svcb_good : forall fuel s, PInv s -> (length (rest s) < fuel)%nat -> good PInv (while_svcb fuel s).
+Proof.
+  induction fuel as [|f IH]; intros s HP Hf; [lia|].
+  cbn [while_svcb]. destruct (is_token (scat s)); [|exact HP].
+  eapply good_bind; [apply scan_svcb_octets_good; exact HP|].
+  intros [r s1] _ (HP1 & HL). cbn [snd] in *. apply IH; [exact HP1|lia].
+Qed.
+
 Definition meth_ok (m : meth) : Prop := match m with MUint _ c => c = true | _ => True end.
 
 Lemma good_drop {A} (o : outcome (A * sbuf)) :
@@ -1186,6 +1286,7 @@ Proof.
   - apply while_ascii_good; [exact HP|lia].
   - apply good_drop. apply convert_token_salt_good; exact HP.
   - apply good_drop. apply convert_token_hash_good; exact HP.
+  - apply while_svcb_good; [exact HP|]. destruct HP as (HI & _). rewrite (rest_length s HI). lia.
 Qed.
 
 Theorem run_meths_good origin ms : Forall meth_ok ms -> forall s, PInv s -> good PInv (run_meths origin ms s).
@@ -1218,7 +1319,7 @@ Lemma schema_matches_source :
                     | Some fs => if list_eq_dec N.eq_dec (map field_code fs) (snd x) then true else false
                     | None => true end) type_scans = true
   /\ forallb (fun rt => match schema rt with Some _ => existsb (fun x => fst x =? rt) type_scans | None => false end)
-       [1; 2; 3; 4; 5; 6; 7; 8; 9; 12; 13; 14; 15; 16; 17; 33; 35; 39; 44; 51; 52; 61] = true.
+       [1; 2; 3; 4; 5; 6; 7; 8; 9; 12; 13; 14; 15; 16; 17; 33; 35; 39; 44; 47; 50; 51; 52; 61] = true.
 Proof. vm_compute. split; reflexivity. Qed.
 
 Lemma decode_meth_ok c m : decode_meth c = Some m -> meth_ok m.
